@@ -51,6 +51,16 @@ func opOf(name string) (treefs.Op, bool) {
 		return treefs.Op{Kind: "ReadDir", P: "d"}, true
 	case "copy-f-h":
 		return treefs.Op{Kind: "CopyFile", P: "d/f", Q: "d/h"}, true
+	case "read-c-f":
+		return treefs.Op{Kind: "ReadFile", P: "c/f"}, true
+	case "read-c-g":
+		return treefs.Op{Kind: "ReadFile", P: "c/g"}, true
+	case "isfile-c-h":
+		return treefs.Op{Kind: "IsFile", P: "c/h"}, true
+	case "write-c-f":
+		return treefs.Op{Kind: "WriteFile", P: "c/f", Data: "v1-111"}, true
+	case "lstat-c-g":
+		return treefs.Op{Kind: "Lstat", P: "c/g"}, true
 	case "write-over-d":
 		// (refused when d is a directory; the refusal must leave nothing locked)
 		return treefs.Op{Kind: "WriteFile", P: "d", Data: "dd"}, true
@@ -108,12 +118,17 @@ func build(sp Spec, o *obs) func() {
 	return func() {
 		*o = obs{}
 		fs, _ := memfs.NewFilespace()
-		if sp.Init == "df" || sp.Init == "d3" {
+		if sp.Init == "df" || sp.Init == "d3" || sp.Init == "d3copy" {
 			fs.WriteFile("d/f", []byte("v0-000"), 0644)
 		}
-		if sp.Init == "d3" { // three files stored in this order in one directory
+		if sp.Init == "d3" || sp.Init == "d3copy" { // three files stored in this order in one directory
 			fs.WriteFile("d/g", []byte("g"), 0644)
 			fs.WriteFile("d/h", []byte("na"), 0644)
+		}
+		if sp.Init == "d3copy" {
+			// the directory the threads use is a deep COPY whose nodes nobody has looked up yet (whatever a
+			// copy prepares lazily is prepared by the concurrent first users)
+			fs.CopyDirectory("d", "c")
 		}
 		var wg vsched.WaitGroup
 		for ti, names := range sp.Threads {
@@ -287,14 +302,17 @@ var fsModel = porcupine.Model{
 
 func (e event) init() *treefs.Node {
 	t := treefs.NewDir()
-	if e.op.P == "df" || e.op.P == "d3" {
+	if e.op.P == "df" || e.op.P == "d3" || e.op.P == "d3copy" {
 		d := treefs.NewDir()
 		d.Kids["f"] = &treefs.Node{Data: "v0-000"}
-		if e.op.P == "d3" {
+		if e.op.P != "df" {
 			d.Kids["g"] = &treefs.Node{Data: "g"}
 			d.Kids["h"] = &treefs.Node{Data: "na"}
 		}
 		t.Kids["d"] = d
+		if e.op.P == "d3copy" {
+			t.Kids["c"] = d.Clone()
+		}
 	}
 	return t
 }
@@ -486,6 +504,14 @@ func programs(thorough bool) []Spec {
 			ps = append(ps, Spec{"d3", [][]string{{a}, {b}}, b2})
 		}
 	}
+	// first use of a freshly copied directory from several goroutines
+	cops := []string{"read-c-f", "read-c-g", "isfile-c-h", "write-c-f", "lstat-c-g"}
+	for i, a := range cops {
+		for _, b := range cops[i:] {
+			ps = append(ps, Spec{"d3copy", [][]string{{a}, {b}}, b2})
+		}
+	}
+	ps = append(ps, Spec{"d3copy", [][]string{{"read-c-f"}, {"read-c-g"}, {"write-c-f"}}, b3})
 	ps = append(ps,
 		Spec{"d3", [][]string{{"remove-f"}, {"remove-g"}, {"remove-h"}}, b3},
 		Spec{"d3", [][]string{{"remove-f"}, {"remove-h"}, {"readdir-d"}}, b3},
@@ -542,7 +568,7 @@ func replay(wj json.RawMessage) (*fw.Violation, error) {
 
 func init() {
 	fw.Register(&fw.Check{ID: "C09", Level: "model_checking",
-		Rule: "programs = initial tree {empty, {d/f}} x (and, with three files d/f, d/g, d/h in one directory, all pairs of 8 operations on distinct names plus 4 larger programs) x (all unordered pairs of 12 single operations on a shared directory d and file d/f: WriteFile x2, ReadFile, writer and reader streams held open across a scheduling point, MkdirAll, nested write, Remove, RemoveAll, ReadDir, CopyFile, new-node write; 8 three-thread programs; 4 two-operation programs; 8 programs holding a reader or a writer open across another operation of the same thread, against stream writes, plain writes, reads and copies of that file into the same directory; 2 programs in which a refused write (onto a directory) is followed by and races with successful writes in the same directory); every schedule of the real memfs with <= bound preemptions (pairs 3/8, triples 2/4, 2x2 3/5 for quick/thorough); oracle: the call/return history plus the final tree must be linearizable w.r.t. the tree model (porcupine), structural sanity of the final tree, no panic, no deadlock, race oracle on memfs fields. states = distinct schedule traces",
+		Rule: "programs = (16 programs of first uses - reads, stat, write - of a directory that was just deep-copied) + initial tree {empty, {d/f}} x (and, with three files d/f, d/g, d/h in one directory, all pairs of 8 operations on distinct names plus 4 larger programs) x (all unordered pairs of 12 single operations on a shared directory d and file d/f: WriteFile x2, ReadFile, writer and reader streams held open across a scheduling point, MkdirAll, nested write, Remove, RemoveAll, ReadDir, CopyFile, new-node write; 8 three-thread programs; 4 two-operation programs; 8 programs holding a reader or a writer open across another operation of the same thread, against stream writes, plain writes, reads and copies of that file into the same directory; 2 programs in which a refused write (onto a directory) is followed by and races with successful writes in the same directory); every schedule of the real memfs with <= bound preemptions (pairs 3/8, triples 2/4, 2x2 3/5 for quick/thorough); oracle: the call/return history plus the final tree must be linearizable w.r.t. the tree model (porcupine), structural sanity of the final tree, no panic, no deadlock, race oracle on memfs fields. states = distinct schedule traces",
 		Run: run, Replay: replay,
 		Assumptions: []string{"linearizability against the tree model is used as the meaning of 'takes effect and is visible afterwards'; a stream counts as one operation from open to close", "2-3 threads; bounds as reported; word-sized fields outside the race oracle"}})
 }
